@@ -123,7 +123,11 @@ def gen_check(drv, pid, cfg, info, seed, tier, viol_so_far):
     outdir = os.path.join(drv.BUILD, pid)
     sw = os.path.join(outdir, 'gensweep.v')
     open(sw, 'w').write('From Verif Require Import Base MiniGo GenSrc GenRep GenSweep.\n'
-                        'Definition S := Eval vm_compute in sweeps_%s.\n'
+                        '(* an input on which the generated code cannot be run by the semantics (OHang: a callee that is not translated, or out\n'
+                        '   of fuel) is not an observation of the code: it is counted apart and never reported as a failing input *)\n'
+                        'Definition SALL := Eval vm_compute in sweeps_%s.\n'
+                        'Definition S := Eval vm_compute in List.filter (fun d => match d_generated d with OHang => false | _ => true end) SALL.\n'
+                        'Definition NH := Eval vm_compute in (length SALL - length S)%%nat.\nPrint NH.\n'
                         'Definition N := Eval vm_compute in length S.\nPrint N.\n' % pid +
                         ''.join('Definition S%d := Eval vm_compute in nth_error S %d.\nPrint S%d.\n' % (k, k, k) for k in range(3)))
     ts = time.time()
@@ -132,6 +136,8 @@ def gen_check(drv, pid, cfg, info, seed, tier, viol_so_far):
     n = re.search(r'N = (\d+)', sout)
     count = int(n.group(1)) if (rc == 0 and n) else None
     ev['sweep_disagreements'] = count
+    nh = re.search(r'NH = (\d+)', sout)
+    ev['sweep_not_executable'] = int(nh.group(1)) if (rc == 0 and nh) else None
     lemma = where = None
     if failed is not None:
         m = re.search(r'File "[^"]*?([\w.]+\.v)", line (\d+), characters', out)
@@ -140,7 +146,8 @@ def gen_check(drv, pid, cfg, info, seed, tier, viol_so_far):
         ev['failed'] = dict(file=failed, lemma=lemma, at=where)
     common = dict(property=pid, seed=seed, tier=tier, kind='generated-code',
                   lemma_that_no_longer_checks=lemma, at=where, coqc_output=out[-2500:] if failed else None,
-                  sweep_result=('sweeps_%s evaluated: %s disagreeing inputs' % (pid, count)) + (' - generated code and model agree on the whole small domain' if count == 0 else ''),
+                  sweep_result=('sweeps_%s evaluated: %s disagreeing inputs' % (pid, count)) + (' - generated code and model agree on the whole small domain' if count == 0 and not ev.get('sweep_not_executable') else '')
+                               + ((' ; on %d inputs the generated code could not be run by the semantics (it calls a function that is not translated, or runs out of fuel): no observation there' % ev['sweep_not_executable']) if ev.get('sweep_not_executable') else ''),
                   field_names=field_names,
                   functions=[e['function'] + ' ' + e['source'] for e in ev['functions']],
                   rerun='./check %s' % pid)
